@@ -19,6 +19,7 @@ inductive Exp
   | divN (e : Exp) (n : Nat)    -- `e / n`     (angle.__truediv__ with an int literal)
   | mulN (e : Exp) (n : Nat)    -- `e * n`     (angle.__mul__ / __rmul__ with an int literal)
   | toFloat (e : Exp)           -- `float(e)`  (angle.__float__ : halfturns * math.pi)
+  | res (j : Nat)               -- the value returned by the j-th call of the enclosing body
   deriving DecidableEq, Repr
 
 structure Call where
@@ -42,6 +43,7 @@ structure Row where
   params : List PTy
   ret : String
   binding : Binding
+  returns : List Exp   -- what a `@guppy` body returns (in order); `[]` for op-bound functions and `None`
   deriving DecidableEq, Repr
 
 /-- how a value reaches an op input port -/
@@ -64,6 +66,7 @@ def Exp.subst (σ : List Exp) : Exp → Exp
   | .divN e n => .divN (e.subst σ) n
   | .mulN e n => .mulN (e.subst σ) n
   | .toFloat e => .toFloat (e.subst σ)
+  | .res j => .res j
 
 def lookup (tbl : List Row) (m f : String) : Option Row :=
   tbl.find? fun r => r.modl == m && r.name == f
@@ -101,6 +104,18 @@ def Exp.halfturns? {α : Type} [Neg α] [Mul α] [Div α] [NatCast α] (piH : α
   | .divN e n => if n = 0 then none else (e.halfturns? piH).map fun h => h / (n : α)
   | .mulN e n => (e.halfturns? piH).map fun h => h * (n : α)
   | .toFloat _ => none
+  | .res _ => none
+
+/-- what the call `m.f(actuals)` returns, for functions written as a Guppy body: the returned
+    expressions with the actual arguments substituted (`.res j` = result of the body's j-th call) -/
+def returnsOf (tbl : List Row) (m f : String) (actuals : List Exp) : Option (List Exp) :=
+  match lookup tbl m f with
+  | none => none
+  | some row =>
+    if row.params.length ≠ actuals.length then none else
+    match row.binding with
+    | .body _ => some (row.returns.map (Exp.subst actuals))
+    | _ => none
 
 end GuppyVerif.Gate
 
